@@ -102,6 +102,6 @@ Proof.
       * split; [reflexivity|]. eexists. split; [left; reflexivity|]. cbn. auto.
       * eapply Forall_impl; [|exact I2]. intros [ft a x] (E & s' & Hin & Hx). split; [exact E|]. exists s'. split; [right; exact Hin|exact Hx].
   - specialize (IH b). destruct (raise_streams_b t b) as [[t' w'] r]. destruct IH as (I1 & I2).
-    split; [constructor; [cbn; unfold strm_le; cbn; repeat split; lia|exact I1]|].
+    split; [constructor; [cbn; unfold strm_le; destruct RAISE_BEFORE_START_FRAME; cbn; repeat split; lia|exact I1]|].
     eapply Forall_impl; [|exact I2]. intros [ft a x] (E & s' & Hin & Hx). split; [exact E|]. exists s'. split; [right; exact Hin|exact Hx].
 Qed.
